@@ -16,10 +16,10 @@ import (
 // operand kinds (tables 3.2-3.8).
 
 type c05Operand struct {
-	Name string
-	Lit  func(slot string) Expr // expression denoting the operand in place (slot distinguishes unset variables)
-	JSON string                 // document text, "" when JSON cannot express it
-	NoVar bool                  // cannot be stored in a variable (functions)
+	Name  string
+	Lit   func(slot string) Expr // expression denoting the operand in place (slot distinguishes unset variables)
+	JSON  string                 // document text, "" when JSON cannot express it
+	NoVar bool                   // cannot be stored in a variable (functions)
 }
 
 func numOp(text string) c05Operand {
